@@ -1,4 +1,4 @@
-import NimaVerif.Model.Resolve
+import NimaVerif.Model.ScopeFragment
 import NimaVerif.Model.SExp
 /-!
 Driver requests for L7 (scoping):
@@ -81,17 +81,38 @@ def resKind : ResKind → String
   | .cycleInherit => "cycleInherit" | .inheritSrc => "inheritSrc" | .withEnv => "withEnv"
   | .callArg => "callArg" | .missingParam => "missingParam"
 
+def sFail (stage : String) : Fail → SExp
+  | .res k => .list [.atom stage, .atom "res", .atom (resKind k)]
+  | .key => .list [.atom stage, .atom "key"]
+  | .type => .list [.atom stage, .atom "type"]
+  | .value => .list [.atom stage, .atom "value"]
+  | .notIdent => .list [.atom stage, .atom "notIdent"]
+  | .fuel => .list [.atom stage, .atom "fuel"]
+
 def sOutcome : Outcome → SExp
   | .bound n => .list [.atom "bound", sNat n]
-  | .fail (.res k) => .list [.atom "fail", .atom "res", .atom (resKind k)]
-  | .fail .key => .list [.atom "fail", .atom "key"]
-  | .fail .type => .list [.atom "fail", .atom "type"]
-  | .fail .value => .list [.atom "fail", .atom "value"]
-  | .fail .notIdent => .list [.atom "fail", .atom "notIdent"]
-  | .fail .fuel => .list [.atom "fail", .atom "fuel"]
+  | .fail f => sFail "fail" f
+  | .nav f => sFail "nav" f
+
+def sfail : SFail → String
+  | .unbound => "unbound" | .cycle => "cycle" | .noValue => "noValue" | .notASet => "notASet"
+  | .missingAttr => "missingAttr" | .fuel => "fuel"
+
+def sSpec : SpecOutcome → SExp
+  | .bound n => .list [.atom "bound", sNat n]
+  | .error k => .list [.atom "error", .atom (sfail k)]
+  | .navError k => .list [.atom "nav", .atom "error", .atom (sfail k)]
+  | .nav f => sFail "nav" f
 
 def handle' (req : SExp) : SExp :=
   match req with
+  | .list [.atom "resolve", .atom fuel, prog, .list path] =>
+    match fuel.toNat?, decExpr prog, decPath path with
+    | some f, some p, some pa =>
+      let i := implResolve f p pa
+      let s := specResolve f p pa
+      .list [.atom "ok", sOutcome i, sSpec s, sBool (agrees i s), .list ((causes f p pa).map .atom)]
+    | _, _, _ => .list [.atom "bad-arg"]
   | .list [.atom "history", .atom fuel, prog, .list paths] =>
     match fuel.toNat?, decExpr prog, decPaths paths with
     | some f, some p, some ps => .list (.atom "ok" :: (implHistory f p {} ps).map sOutcome)
